@@ -19,7 +19,7 @@ import (
 
 func TestMain(m *testing.M) {
 	document.SetGlobalLevel(document.LogLevelSilent)
-	kit.TestMain(m, 600, 6000)
+	kit.TestMain(m, 1500, 6000)
 }
 
 // Op is one call of the history: the shared op data plus the style argument of the style-API ops.
@@ -66,7 +66,7 @@ var weights = []struct {
 	{"toc", 1}, {"autotoc", 1}, {"updatetoc", 1},
 	{"listitem", 3}, {"bullet", 1}, {"numbered", 1},
 	{"footnote", 3}, {"endnote", 3}, {"header", 1}, {"footer", 1},
-	{"save", 5}, {"reopen", 5}, {"md", 1},
+	{"save", 5}, {"reopen", 5}, {"md", 1}, {"render", 3},
 }
 
 var kindPool = func() []string {
@@ -119,6 +119,7 @@ func genOpOf(t *rapid.T, k string) Op {
 		o.I = []int{rapid.IntRange(1, 9).Draw(t, "lvl")}
 	case "pstyle":
 		o.I = []int{sel(), sel()}
+		o.B = []bool{bl()} // prefer a style that is not one of the predefined ones (created through the API / carried by the opened package)
 	case "st.create":
 		o.St = genSpec(t, false)
 	case "st.add":
@@ -171,6 +172,8 @@ func genOpOf(t *rapid.T, k string) Op {
 		o.B = []bool{rapid.IntRange(0, 3).Draw(t, "viafile") == 0}
 	case "reopen":
 		o.B = []bool{rapid.IntRange(0, 3).Draw(t, "viafile") == 0, bl()} // through a file, in a fresh process (registries reset)
+	case "render":
+		// the current document is loaded as the base document of a template and rendered: no arguments
 	case "md":
 		n := rapid.IntRange(1, 6).Draw(t, "mdn")
 		var b strings.Builder
@@ -199,12 +202,23 @@ var tails = [][]string{
 	{"st.add", "save", "st.remove", "st.add", "save"},
 	{"md", "st.add", "pstyle", "save", "heading"},
 	{"heading", "listitem", "footnote", "save", "reopen", "heading", "listitem", "endnote"},
+	// a document that came into being by rendering a template base with its own definitions, then extended
+	{"listitem", "reopen", "bullet", "render", "numbered"},
+	{"footnote", "endnote", "reopen", "footnote", "render", "endnote", "footnote"},
+	{"listitem", "footnote", "render", "listitem", "endnote", "save"},
+	{"numbered", "endnote", "render", "bullet", "footnote", "render", "listitem"},
+	{"st.add", "pstyle", "render", "heading", "save"},
+	{"reopen", "listitem", "footnote", "render", "listitem", "endnote", "reopen", "numbered"},
 }
 
 func genStart(t *rapid.T) *Start {
 	s := &Start{Scheme: rapid.SampledFrom([]string{"none", "zh", "wps"}).Draw(t, "scheme"), Strip: rapid.Bool().Draw(t, "strip"),
 		Custom: rapid.Bool().Draw(t, "custom"), Quote: rapid.Bool().Draw(t, "quote"),
 		Lists: rapid.IntRange(0, 4).Draw(t, "lists"), Footnotes: rapid.IntRange(0, 3).Draw(t, "fn"), Endnotes: rapid.IntRange(0, 3).Draw(t, "en")}
+	// half of the packages from elsewhere bind the main namespace of their numbering/notes parts to something other than w
+	if rapid.Bool().Draw(t, "nsother") {
+		s.NS = rapid.SampledFrom(nsSchemes).Draw(t, "ns")
+	}
 	n := rapid.IntRange(0, 4).Draw(t, "nh")
 	for i := 0; i < n; i++ {
 		s.Headings = append(s.Headings, rapid.IntRange(1, 9).Draw(t, "hl"))
@@ -254,6 +268,11 @@ type runner struct {
 	x   *ops.Exec
 	m   *model
 	dir string
+	// the base document of the most recent render and the bookkeeping that belonged to it: it stays a valid
+	// document object of its own, saved (and judged on X1-X3) when the history ends or the next render replaces it
+	base      *document.Document
+	baseModel *model
+	baseWhere string
 }
 
 var libTypes = map[string]style.StyleType{"paragraph": style.StyleTypeParagraph, "character": style.StyleTypeCharacter, "table": style.StyleTypeTable}
@@ -293,20 +312,34 @@ func indexOf(l []string, s string) int {
 }
 
 // judge evaluates X1-X4 on one saved package.
-func (r *runner) judge(b []byte, where string) *obs {
-	res, m := r.res, r.m
+func (r *runner) judge(b []byte, where string) *obs { return r.judgeAs(r.m, b, where, true) }
+
+// judgeAs evaluates the clauses with the bookkeeping m of the document object the package was saved from
+// (current = the history's current document: X4 applies and the save counts for the non-trivial rule).
+func (r *runner) judgeAs(m *model, b []byte, where string, current bool) *obs {
+	res := r.res
 	o, err := observe(b)
 	if err != nil {
 		// not a readable package / main part: C01's clause, nothing to resolve here
 		res.Count("unreadable_package", 1)
 		return nil
 	}
-	m.saves++
-	if m.saves >= 2 && m.sinceSave {
-		m.styleBetweenSaves = true
+	clauses := []string{"C13.X1", "C13.X2", "C13.X3"}
+	if current {
+		m.saves++
+		if m.saves >= 2 && m.sinceSave {
+			m.styleBetweenSaves = true
+		}
+		m.sinceSave = false
+		if !m.opened && !m.renderOfSaved {
+			m.lastSaveStyles = map[string]bool{}
+			for id := range o.Styles {
+				m.lastSaveStyles[id] = true
+			}
+		}
+		clauses = append(clauses, "C13.X4")
 	}
-	m.sinceSave = false
-	for _, cl := range []string{"C13.X1", "C13.X2", "C13.X3", "C13.X4"} {
+	for _, cl := range clauses {
 		res.Eval(cl)
 	}
 	res.Count("style_refs_checked", len(o.Refs))
@@ -329,29 +362,74 @@ func (r *runner) judge(b []byte, where string) *obs {
 			if v.Sdt {
 				flags = append(flags, "in-sdt")
 			}
+			// the styles part of a document rendered from a saved (never opened) base is the one of the base's last save
+			if (m.renderOfSaved && !m.lastSaveStyles[v.ID]) || m.renderLost[v.ID] {
+				flags = append(flags, "rendered-without")
+				m.renderLost[v.ID] = true
+				if current {
+					r.m.renderLost[v.ID] = true
+				}
+			}
 		case "numId":
 			if m.preNum[v.ID] {
 				flags = append(flags, "pre-open")
+			}
+			if m.rendered {
+				flags = append(flags, "rendered")
 			}
 		case "footnote":
 			if m.preFn[v.ID] {
 				flags = append(flags, "pre-open")
 			}
+			if m.rendered {
+				flags = append(flags, "rendered")
+			}
 		case "endnote":
 			if m.preEn[v.ID] {
 				flags = append(flags, "pre-open")
 			}
+			if m.rendered {
+				flags = append(flags, "rendered")
+			}
 		}
 		res.Fail(v.Clause, "%s: %s [kind=%s id=%q flags=%s]", where, v.Text, v.Kind, v.ID, strings.Join(flags, ","))
 	}
+	if !current {
+		return o
+	}
 	for _, v := range checkStyles(o, m.want) {
-		fl := ""
+		var flags []string
 		if m.late[v.ID] {
-			fl = "late-style"
+			flags = append(flags, "late-style")
 		}
-		res.Fail(v.Clause, "%s: %s [kind=style id=%q flags=%s]", where, v.Text, v.ID, fl)
+		if m.lateRendered[v.ID] {
+			flags = append(flags, "late-rendered")
+		}
+		res.Fail(v.Clause, "%s: %s [kind=style id=%q flags=%s]", where, v.Text, v.ID, strings.Join(flags, ","))
 	}
 	return o
+}
+
+// judgeBase saves the base document of the most recent render and judges that package on X1-X3.
+func (r *runner) judgeBase() bool {
+	d, bm, where := r.base, r.baseModel, r.baseWhere
+	r.base, r.baseModel = nil, nil
+	if d == nil {
+		return true
+	}
+	var b []byte
+	var err error
+	if p, st := kit.Try(func() { b, err = d.ToBytes() }); p != nil {
+		r.res.Fail("C13.X0", "%s: saving the template base document panicked: %v [%s]", where, p, st)
+		return false
+	}
+	if err != nil {
+		r.res.Count("save_errors", 1)
+		return true
+	}
+	r.res.Label("base-judged-after-render")
+	r.judgeAs(bm, b, where+": the template base document saved after the history went on with the rendered one", false)
+	return true
 }
 
 func (r *runner) save(viaFile bool, where string) ([]byte, *obs, bool) {
@@ -419,10 +497,10 @@ func (r *runner) open(b []byte, o *obs, viaFile, fresh bool, where string) bool 
 	return true
 }
 
-func isListOp(k string) bool { return k == "listitem" || k == "bullet" || k == "numbered" }
-func isNoteOp(k string) bool { return k == "footnote" || k == "endnote" }
+func isListOp(k string) bool  { return k == "listitem" || k == "bullet" || k == "numbered" }
+func isNoteOp(k string) bool  { return k == "footnote" || k == "endnote" }
 func isStyleOp(k string) bool { return strings.HasPrefix(k, "st.") }
-func isTOCOp(k string) bool  { return k == "toc" || k == "autotoc" || k == "updatetoc" }
+func isTOCOp(k string) bool   { return k == "toc" || k == "autotoc" || k == "updatetoc" }
 
 // step executes one op; false = the history cannot continue.
 func (r *runner) step(i int, op Op) bool {
@@ -452,6 +530,41 @@ func (r *runner) step(i int, op Op) bool {
 			res.Label("reopen:same-process")
 		}
 		return r.open(b, o, len(op.B) > 0 && op.B[0], fresh, where)
+	case "render":
+		// the current document becomes the base document of a template; the history goes on with the rendered document
+		if !r.judgeBase() {
+			return false
+		}
+		var nd *document.Document
+		var err error
+		if !try(func() {
+			te := document.NewTemplateEngine()
+			if _, err = te.LoadTemplateFromDocument("t", x.Doc); err == nil {
+				nd, err = te.RenderTemplateToDocument("t", document.NewTemplateData())
+			}
+		}) {
+			return false
+		}
+		if err != nil || nd == nil || nd.Body == nil {
+			res.Count("render_errors", 1)
+			return true
+		}
+		r.base, r.baseModel, r.baseWhere = x.Doc, m.snapshot(), where
+		x.Doc = nd
+		r.refresh()
+		res.Label("op:render")
+		switch {
+		case m.opened:
+			res.Label("render:of-opened")
+		case m.saved:
+			res.Label("render:of-saved")
+		default:
+			res.Label("render:of-new")
+		}
+		if m.lists > 0 || len(m.preNum) > 0 {
+			res.Label("render:base-with-lists")
+		}
+		m.renderedFrom()
 	case "st.create", "st.add", "st.quick":
 		if sm == nil || op.St == nil {
 			return true
@@ -655,6 +768,17 @@ func (r *runner) step(i int, op Op) bool {
 			return true
 		}
 		cand := m.idsOfType("paragraph")
+		if len(op.B) > 0 && op.B[0] {
+			var own []string
+			for _, id := range cand {
+				if _, predefined := builtinTypes[id]; !predefined {
+					own = append(own, id)
+				}
+			}
+			if len(own) > 0 {
+				cand = own
+			}
+		}
 		if len(cand) == 0 {
 			return true
 		}
@@ -777,15 +901,34 @@ func (r *runner) step(i int, op Op) bool {
 				res.Label("list:after-open")
 				if len(m.preNum) > 0 {
 					res.Label("list:after-open-with-lists")
+					if m.startNS != "" {
+						res.Label("list:after-open-ns-" + m.startNS)
+					}
 				}
 			}
+			if m.rendered {
+				m.extendAfterRender = true
+				res.Label("list:after-render")
+				if m.opened && len(m.preNum) > 0 && m.listsSinceOpen > 0 {
+					res.Label("list:after-render-of-extended-opened")
+				}
+			}
+			m.listsSinceOpen++
 		case isNoteOp(op.K):
 			res.Label("op:note")
+			m.notes++
 			if m.opened {
 				res.Label("note:after-open")
 				if len(m.preFn)+len(m.preEn) > 0 {
 					res.Label("note:after-open-with-notes")
+					if m.startNS != "" {
+						res.Label("note:after-open-ns-" + m.startNS)
+					}
 				}
+			}
+			if m.rendered {
+				m.extendAfterRender = true
+				res.Label("note:after-render")
 			}
 		case isTOCOp(op.K):
 			m.sinceSave = true
@@ -851,6 +994,10 @@ func run(c Case) *kit.Result {
 		if c.Start.Strip {
 			res.Label("start:stripped")
 		}
+		if c.Start.NS != "" {
+			res.Label("start:ns-" + c.Start.NS)
+			r.m.startNS = c.Start.NS
+		}
 		var b []byte
 		var err error
 		if p, _ := kit.Try(func() { b, err = buildStart(c.Start) }); p != nil || err != nil {
@@ -878,6 +1025,7 @@ func run(c Case) *kit.Result {
 	}
 	if complete {
 		r.save(false, "final save")
+		r.judgeBase()
 	}
 	m := r.m
 	if m.saves >= 2 {
@@ -889,24 +1037,31 @@ func run(c Case) *kit.Result {
 	if m.extendAfterOpen {
 		res.Label("opened-then-extended")
 	}
-	res.Nontrivial = m.styleBetweenSaves || m.extendAfterOpen
+	if m.extendAfterRender {
+		res.Label("rendered-then-extended")
+	}
+	res.Nontrivial = m.styleBetweenSaves || m.extendAfterOpen || m.extendAfterRender
 	return res
 }
 
 func TestC13(t *testing.T) {
 	kit.Main(t, kit.Spec[Case]{
 		ID: "C13", Level: "exploration",
-		Rule: "history of 1-18 (thorough 1-40) generated calls (+ a scenario tail in 1/3 of the cases) over the style API (CreateCustomStyle, AddStyle, in-place change, RemoveStyle of an unused custom or predefined style - also right before the heading/TOC call that would normally use it, CreateQuickStyle), styled content (headings 1-9, SetStyle with an id registered at that moment, quote/code via markdown, GenerateTOC/AutoGenerateTOC/UpdateTOC, ApplyTableStyle, CreateCustomTableStyle), list items, notes, saves (ToBytes/Save) and reopen (same process / fresh process); 1/4 of the cases start from a package with localised style ids, its own numbering and notes. Every intermediate and the final package is judged. Non-trivial = >=2 judged saves with a style/list/TOC op between them, or an opened package extended by a style-API or list op; distinct = distinct (start shape, op kind sequence)",
+		Rule: "history of 1-18 (thorough 1-40) generated calls (+ a scenario tail in 1/3 of the cases) over the style API (CreateCustomStyle, AddStyle, in-place change, RemoveStyle of an unused custom or predefined style - also right before the heading/TOC call that would normally use it, CreateQuickStyle), styled content (headings 1-9, SetStyle with an id registered at that moment, quote/code via markdown, GenerateTOC/AutoGenerateTOC/UpdateTOC, ApplyTableStyle, CreateCustomTableStyle), list items, notes, saves (ToBytes/Save), reopen (same process / fresh process) and render (the current document is loaded as the base document of a template, LoadTemplateFromDocument + RenderTemplateToDocument with empty data, and the history goes on with the rendered copy); 1/4 of the cases start from a package with localised style ids, its own numbering and notes, half of these with numbering/notes parts that bind the main namespace to ns0: or make it the default namespace. Every intermediate and the final package is judged on X1-X4; the base document of a render is saved once more when the history ends (or the next render replaces it) and that package is judged on X1-X3. Non-trivial = >=2 judged saves with a style/list/TOC op between them, or an opened package extended by a style-API or list op, or a rendered copy extended by a style-API, list or note op; distinct = distinct (start shape, op kind sequence)",
 		Gen:  genCase, Run: run, Findings: findings,
 		Assumptions: []string{
 			"ids are resolved by the harness's own zip/OPC reader and canonical XML trees; the styles/numbering/notes parts are located through the main part's relationships, else by content type, else by their conventional names (where a relationship is missing or misplaced is C02's clause, except the numbering relationship which X2 names)",
 			"the library writes a note reference as a run whose whole text is [N] / [尾注N]; such runs are taken as references to note id N (generated texts never have this form)",
 			"the note/numbering registries are per document since /repo 996cdc4: every reopen starts from empty registries, the same-process/fresh-process flag of the reopen op no longer changes anything",
 			"a style counts as unused (removable) when no op of the history gave it to a body element, the package the document was opened from does not refer to it, no TOC op ran (TOC/Heading1 ids), no markdown conversion produced the document (heading/quote/code ids) and no known style is based on it",
-			"X4 expectations are dropped when the document object is replaced (reopen, markdown conversion) and when a style is removed: the statement promises presence in the next save only"},
+			"X4 expectations are dropped when the document object is replaced (reopen, markdown conversion, template render) and when a style is removed: the statement promises presence in the next save only",
+			"template rendering is used as one more way (besides Open) in which a document object with its own list/note/style definitions comes into being; it is rendered with empty template data and the generated texts contain no template syntax, so the rendered copy must resolve every id exactly as its base does",
+			"namespace bindings of the parts of a start package are rewritten by the harness (same infoset); ids are resolved by expanded names (namespace URI + local name), never by prefix"},
 		MustSee: map[string]float64{"saves>=2": 0.5, "style/list/toc-op-between-saves": 0.3, "opened-then-extended": 0.15, "start:foreign": 0.15,
 			"style:early": 0.2, "style:after-save": 0.1, "style:on-opened": 0.15, "remove:heading-style": 0.05, "heading:after-its-style-removed": 0.03, "toc:after-removed-toc-style": 0.01, "op:pstyle": 0.2, "pstyle:api-style": 0.05, "heading:9": 0.05, "op:autotoc": 0.05, "op:toc": 0.05,
 			"op:tblstyle-template": 0.05, "op:tblcustom": 0.03, "op:list": 0.2, "op:note": 0.3, "list:after-open-with-lists": 0.03,
-			"note:after-open-with-notes": 0.03, "reopen:fresh-process": 0.15, "reopen:same-process": 0.15, "op:md": 0.05, "op:st.mod": 0.1},
+			"note:after-open-with-notes": 0.03, "op:render": 0.1, "render:of-opened": 0.05, "render:base-with-lists": 0.04, "list:after-render": 0.03, "note:after-render": 0.03,
+			"list:after-render-of-extended-opened": 0.008, "base-judged-after-render": 0.1, "start:ns-ns0": 0.015, "start:ns-default": 0.015, "start:ns-default-ns1": 0.015,
+			"list:after-open-ns-ns0": 0.004, "note:after-open-ns-ns0": 0.004, "reopen:fresh-process": 0.15, "reopen:same-process": 0.15, "op:md": 0.05, "op:st.mod": 0.1},
 	})
 }
